@@ -1,7 +1,7 @@
 (* C02 — theorems.  Only statements and `exact lemma` here.  NOTES.md says in plain words what each
    one means and what is not proved. *)
 From GixV.Base Require Import Bytes Outcome.
-From GixV.C02 Require Import Model Spec ProofsTree ProofsIter ProofsTagIter ProofsWrite ProofsKnown ProofsTime ProofsSig ProofsCommitRT ProofsExtraRT.
+From GixV.C02 Require Import Model Spec ProofsTree ProofsIter ProofsTagIter ProofsWrite ProofsKnown ProofsTime ProofsSig ProofsCommitRT ProofsExtraRT ProofsExtraW.
 
 (* ---- trees ------------------------------------------------------------------------------------ *)
 
@@ -121,6 +121,14 @@ Theorem commit_git_decodes_in_both_parsers : forall c, commit_wf c = true ->
   /\ commit_iter (git_write_commit c) = map IOk (commit_tokens_of c).
 Proof.
   intros c H. pose proof (L_commit_decodes c H) as D. split; [exact D|exact (L_iter_of_decoded c H D)].
+Qed.
+
+(* PROVED: the full statement for commits — decode, token stream and verbatim re-encoding (hence the
+   same id) for EVERY commit git writes *)
+Theorem commit_git_roundtrip : commit_git_roundtrip_full_statement.
+Proof.
+  intros c H. pose proof (L_commit_decodes c H) as D.
+  split; [exact D|]. split; [exact (L_iter_of_decoded c H D)|exact (L_commit_writes c H)].
 Qed.
 
 Definition tag_git_roundtrip_full_statement : Prop := forall g, tag_wf g = true ->
